@@ -44,12 +44,19 @@ def drive(prob, calls):
             break
     return opt, d, err
 
-def check_rows(prob, opt, d):
-    """limits and max_step over the log and the container"""
+def check_rows(prob, opt, d, err=None):
+    """limits and max_step over the log and the container.
+    The container is a row of its own EXCEPT when the last call raised on a problem with non-unit weights: there the solver's limit test
+    (in x = knob / weight) and the merit function's own test (on knob = x * weight) can disagree by rounding on a knob sitting exactly on a
+    limit; the merit function then raises in the middle of a step and the containers keep the last finite-difference probe (off by the
+    finite-difference step).  The statement bounds non-unit weights 'up to rounding' and speaks of ACCEPTED iterates; with unit weights
+    there is no rounding and the container is checked after exceptions too."""
     bad = []
-    rows = [list(map(float, r)) for r in opt._log["knobs"]] + [knobs_of(d, prob)]
+    unit = all(w in (None, 1, 1.0) for w in prob["w"])
+    rows = [list(map(float, r)) for r in opt._log["knobs"]] + ([knobs_of(d, prob)] if (err is None or unit) else [])
     alphas = list(opt._log["alpha"]) + [-1]
     vact = list(opt._log["vary_active"]) + ["".join("y" if v.active else "n" for v in opt.vary)]
+    alphas, vact = alphas[:len(rows)], vact[:len(rows)]
     for r, row in enumerate(rows):
         for i, kv in enumerate(row):
             lim = prob["lim"][i]
@@ -92,14 +99,14 @@ def main():
         except Exception as ex:     # noqa
             rac.fail(f"drive {n}", f"C10 {calls} raised {type(ex).__name__}: {ex}", PRELUDE + G.SRC + CHECK_SRC + f"prob = {prob!r}\nopt, d, err = drive(prob, {calls!r})\n", "Optimize.step")
             continue
-        bad = check_rows(prob, opt, d)
+        bad = check_rows(prob, opt, d, err)
         rac.case(json.dumps(prob) + str(calls), nontrivial=any(prob["lim"]) or any(prob["ms"]),
                  sample=dict(fam=prob["fam"], lim=prob["lim"], ms=prob["ms"], w=prob["w"], calls=calls, rows=len(opt._log["knobs"])))
         if bad:
             kind, r, i, got, bound = bad[0]
             rac.fail(f"{kind} {n} " + json.dumps(prob)[:60], f"C10 {kind}: log row {r}, knob {i}: {got} vs {bound} after {calls} on a {prob['fam']} problem "
                      f"(weights {prob['w']}, max_step {prob['ms']}, limits {prob['lim']})",
-                     PRELUDE + G.SRC + CHECK_SRC + f"prob = {prob!r}\nopt, d, err = drive(prob, {calls!r})\nbad = check_rows(prob, opt, d)\nassert not bad, bad[:3]\n",
+                     PRELUDE + G.SRC + CHECK_SRC + f"prob = {prob!r}\nopt, d, err = drive(prob, {calls!r})\nbad = check_rows(prob, opt, d, err)\nassert not bad, bad[:3]\n",
                      "MeritFunctionForMatch._clip_to_max_steps" if kind == "max_step" else "JacobianSolver.step")
     rac.section("disabled-knobs", "a knob disabled persistently, or only for one step() call (disable_vary / disable_vary_name / "
                 "enable_* of the others), or disabled and then changed by hand between two steps, is never written", "problems with >= 2 knobs",
